@@ -22,6 +22,29 @@ func (fc *funcContext) translateStmtList(stmts []ast.Stmt) {
 	fc.SetPos(token.NoPos)
 }
 
+// stmtPos returns the source position the code of a statement is mapped to.
+//
+// Statements synthesized while simplifying the AST (e.g. the assignment of a
+// switch tag to a temporary variable) start with a node that has no position;
+// they are attributed to the first original node they contain.
+func stmtPos(stmt ast.Stmt) token.Pos {
+	if pos := stmt.Pos(); pos.IsValid() {
+		return pos
+	}
+	pos := token.NoPos
+	ast.Inspect(stmt, func(n ast.Node) bool {
+		if n == nil || pos.IsValid() {
+			return false
+		}
+		if p := n.Pos(); p.IsValid() {
+			pos = p
+			return false
+		}
+		return true
+	})
+	return pos
+}
+
 func (fc *funcContext) translateStmt(stmt ast.Stmt, label *types.Label) {
 	defer func() {
 		err := recover()
@@ -46,7 +69,7 @@ func (fc *funcContext) translateStmt(stmt ast.Stmt, label *types.Label) {
 		panic(bail) // Initiate orderly bailout.
 	}()
 
-	fc.SetPos(stmt.Pos())
+	fc.SetPos(stmtPos(stmt))
 
 	stmt = filter.IncDecStmt(stmt, fc.pkgCtx.Info.Info)
 	stmt = filter.Assign(stmt, fc.pkgCtx.Info.Info, fc.pkgCtx.Info.Pkg)
